@@ -344,6 +344,17 @@ fn thread_body(session: &Session) -> ThreadResult {
     result
 }
 
+const MEMORY_GUARD_KB: u64 = 1_500_000;
+
+/// Resident set size of this process in KiB (0 if unknown).
+fn resident_kb() -> u64 {
+    std::fs::read_to_string("/proc/self/statm")
+        .ok()
+        .and_then(|t| t.split_whitespace().nth(1).and_then(|p| p.parse::<u64>().ok()))
+        .map(|pages| pages * 4)
+        .unwrap_or(0)
+}
+
 /// Execute one session on a fresh thread and collect everything observable.
 pub fn run_session(capture: &Capture, session: &Session) -> Outcome {
     // Leftovers of the harness itself must not be attributed to the run
@@ -371,7 +382,22 @@ pub fn run_session(capture: &Capture, session: &Session) -> Outcome {
     };
     // The hang guard is the only wall-clock read that can influence a result; it turns an
     // endless loop into a reported outcome instead of a stuck check.
-    let result = match rx.recv_timeout(std::time::Duration::from_secs(HANG_GUARD_S)) {
+    // A loop that allocates is cut short by the memory half of the guard (resident set grown by
+    // more than MEMORY_GUARD_KB since the run started), before 16 workers exhaust the machine.
+    let started = std::time::Instant::now();
+    let rss_at_start = resident_kb();
+    let received = loop {
+        match rx.recv_timeout(std::time::Duration::from_millis(200)) {
+            Err(std::sync::mpsc::RecvTimeoutError::Timeout) => {
+                if started.elapsed().as_secs() >= HANG_GUARD_S || resident_kb().saturating_sub(rss_at_start) > MEMORY_GUARD_KB {
+                    break Err(());
+                }
+            }
+            Err(_) => break Err(()),
+            Ok(result) => break Ok(result),
+        }
+    };
+    let result = match received {
         Ok(Ok(result)) => {
             let _ = handle.join();
             result
